@@ -356,6 +356,24 @@ def c05_linear(d):
       want = np.maximum((m * 2 / (2 * top)) if kn else (m / top), 1e-7)
       if scale.shape != want.shape or not np.allclose(scale, want, rtol=1e-5, atol=1e-12):
         bad = {"scale": scale.reshape(-1).tolist()[:6], "expected_from_group_max_of_%s" % ("|x|" if kn else "x"): want.reshape(-1).tolist()[:6]}
+    if clause == "max_to_top" and kw["alpha"] == "auto" and bad is None:
+      # the group maximum must come back unchanged, also for small magnitudes (well above the epsilon floor) and for a
+      # wide format, where a bias in the scaling shows first
+      for b2 in sorted({bits, 8}):
+        for mag in (1.0, 1e-3, 1e-5):
+          t2 = (t.astype(np.float64) * mag).astype(np.float32)
+          q2 = quantizers.quantized_linear(b2, integer, 1 if kn else 0, kn, **kw)
+          o2 = np.array(q2(tf.constant(t2)), dtype=np.float64)
+          axes2 = _group_axes(rank, kw.get("scale_axis")) if rank > 1 else ()
+          src2 = np.abs(t2.astype(np.float64)) if kn else t2.astype(np.float64)
+          m2 = np.max(src2, axis=axes2, keepdims=True) if rank > 1 else src2
+          at = (src2 == m2) & (m2 > 1e-4 * mag)
+          if np.any(at & ~np.isclose(o2, t2.astype(np.float64), rtol=1e-4, atol=0)):
+            i = int(np.argmax(at & ~np.isclose(o2, t2.astype(np.float64), rtol=1e-4, atol=0)))
+            bad = {"group_maximum": float(t2.reshape(-1)[i]), "output": float(o2.reshape(-1)[i]), "bits": b2, "magnitude": mag}
+            break
+        if bad:
+          break
     if clause == "code_range":
       sc = np.broadcast_to(scale, out.shape) if scale.size > 1 else np.full(out.shape, float(scale.reshape(-1)[0]))
       if np.any(np.abs(out) > top * sc * (1 + 1e-6)):
@@ -364,4 +382,61 @@ def c05_linear(d):
     if bad is not None:
       bad.update({"bits": bits, "integer": integer, "tensor_kind_index": tried})
       return {"status": "confirmed", "observed": bad, "expected": "clause %s" % clause}
+  return {"status": "refuted", "observed": {"tensors_tried": tried}}
+
+
+@replayer("c04_eps_probe")
+def c04_eps_probe(d):
+  """Bounded probe for elements_per_scale: the element-wise proof reads a tensor through ONE generic element and cannot
+  see WHERE a group's scale ends up; here the real quantizer runs on tensors whose groups have clearly different
+  magnitudes and its scale tensor is compared, position by position, with the block-wise least-squares scale."""
+  import tensorflow as tf
+  from qkeras import quantizers
+  w = d["witness"]
+  cls = getattr(quantizers, w["class"])
+  shape, sa, eps = tuple(w["shape"]), w["scale_axis"], w["eps"]
+  axes = sa if isinstance(sa, list) else [sa]
+  es = eps if isinstance(eps, list) else [eps] * len(axes)
+  rng = np.random.default_rng(5)
+  tried = 0
+  for trial in range(3):
+    t = rng.standard_normal(shape).astype(np.float32)
+    # make the blocks along every scale axis differ in magnitude by powers of 4
+    for a, e in zip(axes, es):
+      idx = (np.arange(shape[a]) // e).astype(np.float32)
+      sh = [1] * len(shape)
+      sh[a] = shape[a]
+      t = t * (4.0 ** idx.reshape(sh)).astype(np.float32)
+    kw = dict(w["kwargs"])
+    q = cls(**kw)
+    q(tf.constant(t))
+    scale = np.array(q.scale, dtype=np.float64)
+    scale = np.broadcast_to(scale, [s if i in axes else 1 for i, s in enumerate(shape)]) if scale.ndim == len(shape) and all(
+        scale.shape[i] in (1, shape[i]) for i in range(len(shape))) else scale
+    code = np.where(t >= 0, 1.0, -1.0)
+    view, keep = [], []
+    for i, dd in enumerate(shape):
+      if i in axes:
+        e = es[axes.index(i)]
+        keep.append(len(view))
+        view.extend([dd // e, e])
+      else:
+        view.append(dd)
+    red = tuple(i for i in range(len(view)) if i not in keep)
+    qx = np.mean((t.astype(np.float64) * code).reshape(view), axis=red, keepdims=True)
+    qq = np.mean((code * code).reshape(view), axis=red, keepdims=True)
+    want = qx / (qq + 1e-7)
+    if "po2" in str(kw.get("alpha")):
+      want = np.power(2.0, np.round(np.log(want + 1e-7) / np.log(2.0)))
+    back = [shape[i] // es[axes.index(i)] if i in axes else 1 for i in range(len(shape))]
+    want = want.reshape(back)
+    for a, e in zip(axes, es):
+      want = np.repeat(want, e, axis=a)
+    tried += 1
+    got = np.array(q.scale, dtype=np.float64)
+    if got.shape != want.shape or not np.allclose(got, want, rtol=1e-4, atol=1e-7):
+      return {"status": "confirmed",
+              "observed": {"scale": got.reshape(-1).tolist()[:12], "expected_blockwise": want.reshape(-1).tolist()[:12],
+                           "scale_shape": list(got.shape), "expected_shape": list(want.shape)},
+              "expected": "every block of elements_per_scale consecutive elements carries the least-squares scale of that block"}
   return {"status": "refuted", "observed": {"tensors_tried": tried}}
